@@ -164,14 +164,37 @@ fn one_spawn(v: &Value, files: &mut Files, out: &mut Vec<String>, idx: usize) {
         }
     }
     let pre = fd_table();
-    let penv: Vec<String> = std::env::vars_os()
-        .map(|(k, v)| {
-            let mut kv = k.as_bytes().to_vec();
-            kv.push(b'=');
-            kv.extend_from_slice(v.as_bytes());
-            kv.iter().map(|b| format!("{:02x}", b)).collect::<String>()
-        })
-        .collect();
+    // "raw_environ": the parent itself was started with an unusual environment block (repeated names, entries without
+    // '='): `environ` is pointed at exactly these entries for the duration of the launch
+    extern "C" {
+        static mut environ: *mut *mut libc::c_char;
+    }
+    let mut raw_store: Vec<Vec<u8>> = vec![];
+    let mut raw_ptrs: Vec<*mut libc::c_char> = vec![];
+    let saved_environ = unsafe { environ };
+    if let Some(l) = v["raw_environ"].as_array() {
+        for e in l {
+            let mut b = unhex(e.as_str().unwrap());
+            b.push(0);
+            raw_store.push(b);
+        }
+        for b in raw_store.iter_mut() {
+            raw_ptrs.push(b.as_mut_ptr() as *mut libc::c_char);
+        }
+        raw_ptrs.push(std::ptr::null_mut());
+        unsafe { environ = raw_ptrs.as_mut_ptr() };
+    }
+    // the parent's environment as it is: every entry of `environ`, in order, whatever it looks like
+    let penv: Vec<String> = unsafe {
+        let mut out = vec![];
+        let mut p = environ;
+        while !p.is_null() && !(*p).is_null() {
+            let e = std::ffi::CStr::from_ptr(*p).to_bytes();
+            out.push(e.iter().map(|b| format!("{:02x}", b)).collect::<String>());
+            p = p.add(1);
+        }
+        out
+    };
     let pcwd: String = std::env::current_dir().unwrap().as_os_str().as_bytes().iter().map(|b| format!("{:02x}", b)).collect();
     out.push(json!({"e":"pre","i":idx,"fds":pre,"pass":passed,"penv":penv,"pcwd":pcwd}).to_string());
     slog::set_fault(fault_of(&v["fault"]));
@@ -185,6 +208,7 @@ fn one_spawn(v: &Value, files: &mut Files, out: &mut Vec<String>, idx: usize) {
         unsafe { simk::raw::exit_group(98) };
     }
     slog::stop();
+    unsafe { environ = saved_environ };
     slog::PARENT_DELAY_AFTER_FORK_US.store(0, std::sync::atomic::Ordering::SeqCst);
     slog::set_fault(None);
     let (forked, child_pids) = sys_events(out);
